@@ -264,6 +264,13 @@ def reference(op, objs, m, args, peek):
 
     if o in ("filter", "filter_out"):
         keep = (o == "filter")
+        if "pred" in op and "kv" in op:
+            # both a function and key=value pairs: the documentation says "either ... or"; whichever condition is used
+            # (the function alone, or the function and the pairs), filter and filter_out split the items by THAT condition
+            pred = PREDS[op["pred"]]
+            kv = [(k, v) for k, v in op["kv"]]
+            both = lambda c: bool(pred(c)) and all(c.get(k) == v for k, v in kv)
+            return Expect([[p for p in pairs if bool(pred(p[1])) == keep], [p for p in pairs if both(p[1]) == keep]])
         if "pred" in op:
             pred = PREDS[op["pred"]]
             return Expect([[p for p in pairs if bool(pred(p[1])) == keep]])
